@@ -32,6 +32,14 @@ type Plan struct {
 	Tickers     []int    `json:"tickers"`
 	Policies    []string `json:"policies"`
 	Replay      int      `json:"replay"` // behaviours replayed on the real code (0 = all printed)
+	SharesPath  string   `json:"sharesPath"` // "" = "raw" (keyper.go as found) | "wrapped" (proposed repair GNO-1)
+}
+
+func (p Plan) path() string {
+	if p.SharesPath == "" {
+		return "raw"
+	}
+	return p.SharesPath
 }
 
 func intSet(xs []int) string {
@@ -66,8 +74,8 @@ func tlaBool(b bool) string {
 }
 
 func (p Plan) baseConsts() string {
-	return fmt.Sprintf(" NEons = 1\n GasLimit = %d\n MinGas = 1\n MaxAge = %d\n Unreg <- cUnreg\n Ranks <- cRanks\n NK = %d\n T = %d\n",
-		p.GasLimit, p.MaxAge, nKeypers, threshold)
+	return fmt.Sprintf(" NEons = 1\n GasLimit = %d\n MinGas = 1\n MaxAge = %d\n Unreg <- cUnreg\n Ranks <- cRanks\n NK = %d\n T = %d\n SharesPath = %q\n",
+		p.GasLimit, p.MaxAge, nKeypers, threshold, p.path())
 }
 
 func (p Plan) baseDefs() string {
@@ -86,7 +94,7 @@ func (p Plan) mcFiles() (string, map[string][]byte, string) {
 		fmt.Sprintf(" FirstSlot = %d\n MaxSlot = %d\n TxGas <- cTxGas\n MaxTx = %d\n MaxLag = %d\n MaxLoss = %d\n MaxRestarts = %d\n AllowReorg = %s\n"+
 			" Laggards <- cLaggards\n EarlyBlocks = %s\n LateTicks = %s\n Tickers <- cTickers\n Policies <- cPolicies\n Emit = TRUE\n",
 			p.First, p.MaxSlot, p.MaxTx, p.MaxLag, p.MaxLoss, p.MaxRestarts, tlaBool(p.AllowReorg), tlaBool(p.EarlyBlocks), tlaBool(p.LateTicks)) +
-		"SPECIFICATION Spec\nINVARIANT QuiescentOK\nINVARIANT QueueOK\nINVARIANT SyncOK\nINVARIANT EmitInv\nPROPERTY StepOK\nVIEW View\nCHECK_DEADLOCK FALSE\n"
+		"SPECIFICATION Spec\nINVARIANT QuiescentOK\nINVARIANT QueueOK\nINVARIANT SyncOK\nINVARIANT SyncIdle\nINVARIANT EmitInv\nPROPERTY StepOK\nVIEW View\nCHECK_DEADLOCK FALSE\n"
 	return mod, map[string][]byte{mod + ".tla": []byte(body)}, cfg
 }
 
@@ -99,8 +107,57 @@ func (p Plan) trFiles(trace []byte) (string, map[string][]byte, string) {
 
 // Behaviour is one history printed by TLC.
 type Behaviour struct {
-	H    []Action `json:"h"`
+	H    []Action `json:"-"`
 	Tags []string `json:"tags"`
+}
+
+type rawBehaviour struct {
+	H    [][]json.RawMessage `json:"h"`
+	Tags []string            `json:"tags"`
+}
+
+// decodeAction reads the compact form GnosisE2EMC!Enc.
+func decodeAction(e []json.RawMessage) (Action, error) {
+	a := Action{G: "none", M: noMsg()}
+	get := func(i int, v any) error { return json.Unmarshal(e[i], v) }
+	if len(e) != 3 && len(e) != 8 {
+		return a, fmt.Errorf("history entry of length %d", len(e))
+	}
+	if err := get(0, &a.A); err != nil {
+		return a, err
+	}
+	if err := get(1, &a.N); err != nil {
+		return a, err
+	}
+	if len(e) == 3 {
+		return a, get(2, &a.G)
+	}
+	var ids []int
+	m := &a.M
+	for i, v := range []any{&m.T, &m.From, &m.C.Slot, &m.C.P, &ids, &m.Signers} {
+		if err := get(2+i, v); err != nil {
+			return a, err
+		}
+	}
+	for _, r := range ids {
+		if r < 0 {
+			m.C.Ids = append(m.C.Ids, ID{K: "slot", E: 0, R: -r})
+		} else {
+			m.C.Ids = append(m.C.Ids, ID{K: "tx", E: 1, R: r})
+		}
+	}
+	if m.Signers == nil {
+		m.Signers = []int{}
+	}
+	if m.T == "shares" {
+		m.Sigs = []string{"ok"}
+	} else {
+		for range m.Signers {
+			m.Sigs = append(m.Sigs, "ok")
+		}
+	}
+	a.norm()
+	return a, nil
 }
 
 // Gen is what TLC produced for one plan.
@@ -143,12 +200,17 @@ func Generate(c *core.Ctx, p Plan, workers int) (*Gen, error) {
 		if err != nil {
 			return nil, err
 		}
-		var b Behaviour
-		if err := json.Unmarshal([]byte(s), &b); err != nil {
+		var rb rawBehaviour
+		if err := json.Unmarshal([]byte(s), &rb); err != nil {
 			return nil, fmt.Errorf("behaviour not decodable: %v: %.200s", err, s)
 		}
-		for i := range b.H {
-			b.H[i].norm()
+		b := Behaviour{Tags: rb.Tags}
+		for _, e := range rb.H {
+			a, err := decodeAction(e)
+			if err != nil {
+				return nil, fmt.Errorf("behaviour not decodable: %v: %.200s", err, s)
+			}
+			b.H = append(b.H, a)
 		}
 		sort.Strings(b.Tags)
 		g.Beh = append(g.Beh, b)
